@@ -15,7 +15,7 @@ RULE = ("seeded histories: a pool of 2-4 factor objects and 1-3 constraint objec
         "sequences; distinct = (block kinds, shared constraint kinds, order)")
 ASSUMPTIONS = ["fake peers return only genuine models of the clauses they receive"]
 BUDGET = {"quick": 300, "thorough": 900}
-RUNS = {"quick": 500, "thorough": 60000}
+RUNS = {"quick": 400, "thorough": 60000}
 CKINDS = ["atmost", "atleast", "exactlyrow", "exactlyk", "pin", "exclude"]
 
 
@@ -29,6 +29,11 @@ def gen_case(rs, tier):
         n = rng.randint(2, 3)
         factors.append({"id": "f%d" % i, "kind": "basic", "name": gen.FACTOR_NAMES[i],
                         "levels": [["%s%d" % (gen.FACTOR_NAMES[i].lower(), j), 1] for j in range(n)]})
+    if rng.random() < 0.35:
+        # weighted levels: the same factor object is crossed in one block and left out of the crossing (where its weights
+        # are desugared into hidden factors) in another
+        for f in rng.sample(factors, rng.randint(1, len(factors))):
+            rng.choice(f["levels"])[1] = 2
     if rng.random() < 0.4:
         cfg = gen.swarm(krng, tier)
         cfg["win_window"] = False
@@ -86,8 +91,14 @@ def gen_case(rs, tier):
         elif shape < 0.62 and len(basic_ids) >= 2:
             # Merge of two CrossBlocks over the same design; the shared constraint objects sit in either operand or on the Merge
             other = [x for x in basic_ids if x not in crossing[:1]] or basic_ids
-            b2 = dast.clone(hrng.choice(earlier)) if earlier and hrng.random() < 0.3 else {"kind": "cross", "bid": "B%db" % bi, "design": design, "crossing": [hrng.choice(other)],
-                  "constraints": [dast.clone(c) for c in shared_cons if hrng.random() < 0.4], "rcc": True}
+            if aux and hrng.random() < 0.35:
+                # operands over different designs (the merged block has more factors per trial than either operand),
+                # both of them shared block objects
+                b = dast.clone(aux["O"])
+                b2 = dast.clone(aux[hrng.choice(["I", "I2"])])
+            else:
+                b2 = dast.clone(hrng.choice(earlier)) if earlier and hrng.random() < 0.3 else {"kind": "cross", "bid": "B%db" % bi, "design": design, "crossing": [hrng.choice(other)],
+                      "constraints": [dast.clone(c) for c in shared_cons if hrng.random() < 0.4], "rcc": True}
             b["constraints"] = [c for c in b["constraints"] if c["kind"] != "exclude"]
             b["rcc"] = True
             if any(c["kind"] == "exclude" for c in b2["constraints"]):
@@ -102,10 +113,65 @@ def gen_case(rs, tier):
             b = {"kind": "multicross", "design": design, "crossings": [crossing, cr2] if cr2 != crossing else [crossing, [basic_ids[0]] if crossing != [basic_ids[0]] else [basic_ids[1]]],
                  "constraints": [c for c in b["constraints"] if c["kind"] != "exclude"], "rcc": True,
                  "mode": hrng.choice(["repeat", "weight"]), "alignment": hrng.choice(["post preamble", "parallel start"])}
+        if b["kind"] == "cross" and aux and shape >= 0.70 and shape < 0.80:
+            # an operand block on its own: it can be sampled before (or after) the combinators that share it are built
+            b = dast.clone(aux[hrng.choice(sorted(aux))])
         blocks.append(b)
     order = list(range(len(blocks)))
     hrng.shuffle(order)
+    story = None
+    if aux and hrng.random() < 0.5:
+        # a *story* about one operand block object: two or three uses of the same object, in the order drawn, the first one
+        # usually sampled before the next is built.  Random block lists share an operand object in a few runs in a hundred;
+        # a story does in every run, and that is where history-dependent damage shows.
+        X = hrng.choice(["O", "O", "I", "I2"])
+        inners = ["I", "I2"]
+
+        def use(kind):
+            if kind == "alone":
+                return dast.clone(aux[X])
+            if kind == "repeat":
+                return {"kind": "repeat", "block": dast.clone(aux[X]),
+                        "constraints": [{"id": "ms%d" % hrng.randrange(10 ** 6), "kind": "mintrials", "n": hrng.choice([4, 6])}] +
+                        ([dast.clone(hrng.choice(shared_cons))] if shared_cons and hrng.random() < 0.3 else [])}
+            if kind == "merge":
+                other = aux[hrng.choice(inners)] if X == "O" else aux["O"]
+                pair = [dast.clone(aux[X]), dast.clone(other)]
+                if hrng.random() < 0.5:
+                    pair.reverse()
+                return {"kind": "merge", "blocks": pair, "constraints": [], "mode": hrng.choice(["repeat", "weight"]), "alignment": None}
+            inner = aux[X] if X != "O" else aux[hrng.choice(inners)]
+            return {"kind": "nest", "outer": dast.clone(aux["O"]), "inner": dast.clone(inner), "constraints": [], "alignment": None}
+        kinds_ = ["alone", "repeat", "merge", "nest", "nest"]
+        if not any(c["kind"] in ("atmost", "atleast", "exactlyrow") for c in aux[X]["constraints"]) and hrng.random() < 0.7:
+            # the operand carries a run-length constraint of its own (that is what block geometry gets recorded in)
+            fidx = aux[X]["design"][0]
+            fx = [f for f in factors if f["id"] == fidx][0]
+            aux[X]["constraints"].append({"id": "cs" + X, "kind": hrng.choice(["atmost", "atleast", "exactlyrow"]), "k": hrng.choice([1, 1, 2]),
+                                          "target": [fidx, hrng.choice(fx["levels"])[0]], "spelling": hrng.choice(["tuple", "level"])})
+        first = hrng.choice(["alone", "alone"] + kinds_)
+        blocks = [use(first)] + [use(hrng.choice(kinds_)) for _ in range(hrng.choice([1, 1, 2]))]
+        order = list(range(len(blocks)))
+        story = X
+    if story is None and len(basic_ids) >= 2 and hrng.random() < 0.25:
+        # a *role-change* story: the same (weighted) factor objects, crossed in one block and left out of the crossing in the
+        # next - weights of an uncrossed factor are desugared into hidden factors, weights of a crossed one are not
+        fa, fb_ = basic_ids[0], basic_ids[1]
+        for fid in (fa, fb_):
+            f = [x for x in factors if x["id"] == fid][0]
+            if all(w_ == 1 for _, w_ in f["levels"]) and hrng.random() < 0.8:
+                hrng.choice(f["levels"])[1] = 2
+        small = [fa, fb_]
+        seqs = [[fa], [fb_], [fa, fb_]]
+        hrng.shuffle(seqs)
+        blocks = [{"kind": "cross", "bid": "R%d" % i, "design": list(small), "crossing": cr,
+                   "constraints": [dast.clone(c) for c in shared_cons if c["target"][0] in small and hrng.random() < 0.3], "rcc": True}
+                  for i, cr in enumerate(seqs[:hrng.choice([2, 2, 3])])]
+        order = list(range(len(blocks)))
+        story = "roles"
     knobs = common.draw_knobs(krng, transports=("lib",))
+    if knobs["peer"] in ("walk", "lexmin", "lexmax") and krng.random() < 0.8:
+        knobs["peer"] = "native"      # which model comes first is immaterial here, and those policies cost |variables| solves per model
     # blocks that share an operand block object with another block are the interesting ones: query them first
     def shares(i):
         mine = set(x.get("bid") for x in dast.iter_blocks(blocks[i])) - {None}
@@ -116,13 +182,17 @@ def gen_case(rs, tier):
     # interleaving: some blocks are also queried right after they are built, i.e. before the later constructors run
     # (a synthesis between two constructor calls is part of the history too), and queried again at the end
     early = [i for i in queries if hrng.random() < 0.35]
+    if story is not None:
+        queries = list(order)
+        early = [order[0]] if hrng.random() < 0.8 else []
+        early += [i for i in order[1:] if hrng.random() < 0.2]
     faults = []
     if hrng.random() < 0.12:
         import math
         # the user interrupts one constructor call at an arbitrary line; the shared objects stay in the pool
         faults.append({"kind": "abort@line", "block": hrng.choice(order), "at": int(math.exp(hrng.uniform(0, math.log(30000))))})
     return {"factors": factors, "blocks": blocks, "order": order, "knobs": knobs, "tier": tier,
-            "queries": queries, "early": early, "faults": faults}
+            "queries": queries, "early": early, "faults": faults, "story": story}
 
 
 def key(e):
@@ -151,7 +221,7 @@ def run_case(case):
     import sweetpea as sp
     from ..smworld import SimAbort
     tier = case.get("tier", "quick")
-    cap = 40 if tier == "quick" else 1500
+    cap = 90 if tier == "quick" else 1500
     pool_ast = {"factors": case["factors"], "block": None}
     aborts = {f["block"]: f["at"] for f in (case.get("faults") or []) if f["kind"] == "abort@line"}
     with W.SimWorld(case["run_seed"], case["knobs"]) as w:
@@ -196,7 +266,38 @@ def run_case(case):
                 if (e1 is None) != (e2 is None):
                     viols.append(("C18/synthesis-outcome-differs", "block %d: shared %r fresh %r" % (bi, type(e1).__name__ if e1 else None, type(e2).__name__ if e2 else None)))
                 return
+            if len(rs_) > cap and len(rf_) > cap:
+                # too many to compare as sets.  Cross-check instead: if the fresh twin's checker accepts the fresh twin's own
+                # solutions, it must accept the solutions of the block built from shared objects too (and the other way
+                # round) - they are claimed to be solutions of the same block expression
+                def accepts(checker_blk, seqs):
+                    bad = None
+                    for e in seqs:
+                        try:
+                            mm = sp.sample_mismatch_experiment(checker_blk, {k: list(v) for k, v in e.items()})
+                        except Exception:   # noqa
+                            return None, None
+                        if mm:
+                            bad = (e, mm)
+                            break
+                    return bad is None, bad
+                st["compared"] += 1
+                for who, own, other_blk_solutions, checker in (("fresh", rf_[:30], rs_[:30], fresh), ("shared", rs_[:30], rf_[:30], blk)):
+                    ok_own, _ = accepts(checker, own)
+                    if ok_own:
+                        ok_other, bad = accepts(checker, other_blk_solutions)
+                        if ok_other is False:
+                            viols.append(("C18/solution-rejected-by-twin-checker/%s/%s" % (b["kind"], "shared-solution" if who == "fresh" else "fresh-solution"),
+                                          "block %d (%s): the %s block's checker accepts its own solutions but reports %s for a solution of the %s block: %s ; after %s" % (
+                                              bi, dast.describe({"factors": case["factors"], "block": b}), who, sorted(bad[1].keys()),
+                                              "shared" if who == "fresh" else "fresh", json.dumps(bad[0])[:200], log)))
+                            return
+                return
             if len(rs_) > cap or len(rf_) > cap:
+                viols.append(("C18/solution-count-differs/" + b["kind"],
+                              "block %d (%s): more than %d solutions when built from %s objects, %d from %s objects, after %s" % (
+                                  bi, dast.describe({"factors": case["factors"], "block": b}), cap, "shared" if len(rs_) > cap else "fresh",
+                                  min(len(rs_), len(rf_)), "fresh" if len(rs_) > cap else "shared", log)))
                 return
             S, F = Counter(key(e) for e in rs_), Counter(key(e) for e in rf_)
             st["compared"] += max(len(rs_), len(rf_)) >= 2
